@@ -388,10 +388,13 @@ pub fn run(ctx: &Ctx) -> Report {
     let n = ctx.cases(200_000, 5_000_000);
     run_generated(&mut sec, ctx.seed, n, ctx.workers, || strategy(gen::ConfigMenu::all_transports()), check, sig);
     rep.sections.push(sec);
-    if std::env::var("VERIF_SKIP_MIRI").is_err() {
-        rep.sections.push(section16(ctx));
+    // the 16-bit sections build their own crates (independent of this binary's profile): once per feature setting is enough
+    if !ctx.wrap_profile() {
+        if std::env::var("VERIF_SKIP_MIRI").is_err() {
+            rep.sections.push(section16(ctx));
+        }
+        rep.sections.push(section_helpers(ctx));
     }
-    rep.sections.push(section_helpers(ctx));
     rep
 }
 
